@@ -39,7 +39,17 @@ def norm(v):
 
 def produce(spec, M, pc_id, source, via):
     from pynetdicom2 import dsutils
-    msg = dg.build_msg(spec, source)
+    if via == 'resend':
+        # the message object was already sent once in the opposite data-set state (as providers re-use one
+        # response object for pending and final responses); what is sent now must describe it as it is now
+        first = dict(spec, data=None if spec['data'] else b'\x08\x00\x52\x00\x04\x00\x00\x00XY  ')
+        msg = dg.build_msg(first, 'bytes')
+        msg.set_length()
+        list(msg.encode(pc_id, M))
+        dg.attach(msg, spec['data'], source)
+        via = 'encode'
+    else:
+        msg = dg.build_msg(spec, source)
     if via == 'encode':
         msg.set_length()
         pdus = list(msg.encode(pc_id, M))
@@ -52,7 +62,7 @@ def produce(spec, M, pc_id, source, via):
     return pdus, dsutils.encode(msg.command_set, True, True)
 
 
-def check_case(spec, M, pc_id, sources=SOURCES, vias=('encode', 'send')):
+def check_case(spec, M, pc_id, sources=SOURCES, vias=('encode', 'send', 'resend')):
     case = {'spec': spec, 'M': M, 'pc_id': pc_id}
     data = spec['data'] or b''
     first = None
